@@ -151,7 +151,8 @@ def visit_cases():
             expected = N.TreeAutoNamer.next_name(namer, name0)
             got = child.__dict__.get(N.NAME_ATTR)
             key = "C15-V/%s" % cls.__name__
-            obls = [(key + "/handler-is-the-naming-handler", getattr(m, "__func__", None) is N.TreeAutoNamer.visit_base_operation),
+            obls = [(key + "/handler-is-the-naming-handler",
+                     getattr(getattr(m, "__func__", None), "__module__", None) == "luqum.naming" and getattr(m, "__self__", None) is namer),
                     (key + "/operand-gets-the-successor-of-the-current-name",
                      got is not None and S(got) == S(expected)),
                     (key + "/mapping-gains-exactly-name-to-path-plus-index",
@@ -368,6 +369,8 @@ def plan(tier, seed):
     pl.cases = next_name_cases() + visit_cases() + path_cases()
     pl.canaries = [canary()]
     pl.finite = [("C15-F/matching_from_names", matching_table), ("C15-U/uniform-loops", lambda: uniform.check(LOOPS))]
+    from vfkit import lean as _leanc
+    pl.finite.append(("A6/Lean re-check of the composition lemmas L-IND", _leanc.compose_check('L-IND')))
     ntok = 4 if tier == "quick" else 6
 
     def net():
